@@ -174,15 +174,23 @@ pub const VARD_NAMES: [&str; 30] = ["s_ascii", "s_utf8", "s_empty", "v_i32", "v_
 
 /// Build (if needed) the program for one size parameter: (exe, source file name, line of the stop).
 pub fn ensure_built(n: u64, wrap: u64) -> Result<(String, String, u64), String> {
+    ensure_built_tc(n, wrap, "1.89")
+}
+
+pub fn ensure_built_tc(n: u64, wrap: u64, tc: &str) -> Result<(String, String, u64), String> {
     let dir = crate::common::build_dir().join("std");
     let _ = std::fs::create_dir_all(&dir);
     let src = dir.join(format!("coll_{n}_{wrap}.rs"));
-    let exe = dir.join(format!("coll_{n}_{wrap}"));
+    let exe = dir.join(if tc == "1.89" { format!("coll_{n}_{wrap}") } else { format!("coll_{n}_{wrap}_{}", tc.replace('.', "")) });
     let text = program(n, wrap);
-    let fresh = std::fs::read_to_string(&src).map(|t| t == text).unwrap_or(false) && exe.exists();
+    let same_src = std::fs::read_to_string(&src).map(|t| t == text).unwrap_or(false);
+    // the executable is newer than the source it was built from
+    let fresh = same_src && exe.exists() && std::fs::metadata(&exe).and_then(|e| Ok(e.modified()? >= std::fs::metadata(&src)?.modified()?)).unwrap_or(false);
     if !fresh {
-        std::fs::write(&src, &text).map_err(|e| e.to_string())?;
-        let out = std::process::Command::new("rustc").current_dir("/").args(["+1.89", "--edition", "2021", "-g", "-C", "opt-level=0", "-o"]).arg(&exe).arg(&src).output().map_err(|e| e.to_string())?;
+        if !same_src {
+            std::fs::write(&src, &text).map_err(|e| e.to_string())?;
+        }
+        let out = std::process::Command::new("rustc").current_dir("/").arg(format!("+{tc}")).args(["--edition", "2021", "-g", "-C", "opt-level=0", "-o"]).arg(&exe).arg(&src).output().map_err(|e| e.to_string())?;
         if !out.status.success() {
             return Err(String::from_utf8_lossy(&out.stderr).to_string());
         }
@@ -363,30 +371,18 @@ fn expected_dqe(n: u64) -> Vec<(String, Option<Value>)> {
 pub fn part_std(tier: Tier, expressions: bool) -> Part {
     let mut part = Part::new(if expressions { "c07_std_expressions" } else { "c06_std_collections" });
     part.rule = "std-linked debuggee generated from a size parameter: locals of String, Vec (empty, spare capacity, nested, of Strings), VecDeque (ring wrapped at several offsets), HashMap (scalar and struct keys), HashSet, BTreeMap/BTreeSet (multi-level), Box, Rc, Arc, Cell, RefCell, Option<String>, slices, tuples, statics and a thread-local; read_local_variables at a stop must equal the generator's table (sequences in order, sets/maps as sets, collection type names); at a second stop inside a callee with 8 parameters (Vec, String, Option, tuple, &Vec, &BTreeMap, u64, f64) `arg all` must show exactly those parameters with the values passed, and 12 `arg <expression>` queries (deref of the reference parameters, index, key, field, misses, a caller's local) their table answers; 39 data-query expressions (index, key, key pattern, slice, deref, field, canonical header; including misses) must give the table's answer".into();
-    let dir = crate::common::build_dir().join("std");
-    let _ = std::fs::create_dir_all(&dir);
-    let configs: &[(u64, u64)] = if tier == Tier::Quick { &[(3, 5)] } else { &[(1, 0), (3, 5), (12, 7), (40, 13), (150, 3)] };
-    for &(n, wrap) in configs {
-        let src = dir.join(format!("coll_{n}_{wrap}.rs"));
-        let exe = dir.join(format!("coll_{n}_{wrap}"));
+    let configs: Vec<(u64, u64, &str)> = if tier == Tier::Quick { vec![(3, 5, "1.89")] } else { vec![(1, 0, "1.89"), (3, 5, "1.89"), (12, 7, "1.89"), (40, 13, "1.89"), (150, 3, "1.89"), (3, 5, "stable"), (40, 13, "stable")] };
+    for &(n, wrap, tc) in &configs {
         let text = program(n, wrap);
-        let fresh = std::fs::read_to_string(&src).map(|t| t == text).unwrap_or(false) && exe.exists();
-        if !fresh {
-            let _ = std::fs::write(&src, &text);
-            let out = std::process::Command::new("rustc").current_dir("/").args(["+1.89", "--edition", "2021", "-g", "-C", "opt-level=0", "-o"]).arg(&exe).arg(&src).output();
-            match out {
-                Ok(o) if o.status.success() => {}
-                Ok(o) => {
-                    part.violate("MACHINERY:std-build", String::from_utf8_lossy(&o.stderr).to_string(), json!(null));
-                    continue;
-                }
-                Err(e) => {
-                    part.violate("MACHINERY:std-build", e.to_string(), json!(null));
-                    continue;
-                }
+        let (exe, file, line) = match ensure_built_tc(n, wrap, tc) {
+            Ok(x) => x,
+            Err(e) => {
+                part.violate("MACHINERY:std-build", e, json!(null));
+                continue;
             }
-        }
-        let line = text.lines().position(|l| l.contains("let r = stop_here")).map(|i| i as u64 + 1).unwrap_or(0);
+        };
+        let exe = std::path::PathBuf::from(exe);
+        let src = std::path::PathBuf::from(&file);
         let exprs: Vec<String> = expected_dqe(n).into_iter().map(|e| e.0).collect();
         let arg_line = text.lines().position(|l| l.contains("DBG a_vec=")).map(|i| i as u64 + 1).unwrap_or(0);
         let arg_exprs: Vec<String> = expected_arg_dqe(n).into_iter().map(|e| e.0).collect();
@@ -407,7 +403,7 @@ pub fn part_std(tier: Tier, expressions: bool) -> Part {
         part.states += run.obs.len() as u64;
         part.traces_validated += 1;
         if run.hang_at.is_some() || run.crashed.is_some() || run.obs.len() < 10 {
-            part.violate(if expressions { "C07:std:session-broke" } else { "C06:std:session-broke" }, format!("[n={n}] hang {:?} crash {:?}", run.hang_at, run.crashed), replay);
+            part.violate(if expressions { "C07:std:session-broke" } else { "C06:std:session-broke" }, format!("[n={n} {tc}] hang {:?} crash {:?}", run.hang_at, run.crashed), replay);
             continue;
         }
         // locals
@@ -416,18 +412,18 @@ pub fn part_std(tier: Tier, expressions: bool) -> Part {
             part.evaluations += 1;
             part.distinct_nontrivial += 1;
             let Some(got) = locals.iter().find(|l| l["name"] == name) else {
-                part.violate("C06:std:local-missing", format!("[n={n}] `{name}` is not among the locals shown"), replay.clone());
+                part.violate("C06:std:local-missing", format!("[n={n} {tc}] `{name}` is not among the locals shown"), replay.clone());
                 continue;
             };
             let p = plain(&got["v"]);
             if p != want {
                 let kind = got["v"]["k"].as_str().unwrap_or("?");
-                part.violate(format!("C06:std:value-differs:{kind}"), format!("[n={n}] `{name}`: shown {}, the program holds {}", short(&p), short(&want)), replay.clone());
+                part.violate(format!("C06:std:value-differs:{kind}"), format!("[n={n} {tc}] `{name}`: shown {}, the program holds {}", short(&p), short(&want)), replay.clone());
             }
             if !ty.is_empty() {
                 let t = got["v"]["t"].as_str().unwrap_or("");
                 if !t.starts_with(ty) && !t.contains(ty) {
-                    part.violate("C06:std:type-name-differs", format!("[n={n}] `{name}`: type shown {t:?}, expected to contain {ty:?}"), replay.clone());
+                    part.violate("C06:std:type-name-differs", format!("[n={n} {tc}] `{name}`: type shown {t:?}, expected to contain {ty:?}"), replay.clone());
                 }
             }
             if part.samples.len() < 3 && (name == "vd" || name == "hm_key") {
@@ -440,17 +436,17 @@ pub fn part_std(tier: Tier, expressions: bool) -> Part {
             part.evaluations += 1;
             part.distinct_nontrivial += 1;
             let Some(got) = args.iter().find(|l| l["name"] == name) else {
-                part.violate("C06:std:argument-missing", format!("[n={n}] `{name}` is not among the arguments shown: {}", short(&run.obs[7]["res"]["frames"][0]["args"])), replay.clone());
+                part.violate("C06:std:argument-missing", format!("[n={n} {tc}] `{name}` is not among the arguments shown: {}", short(&run.obs[7]["res"]["frames"][0]["args"])), replay.clone());
                 continue;
             };
             let p = plain(&got["v"]);
             if p != want {
                 let kind = got["v"]["k"].as_str().unwrap_or("?");
-                part.violate(format!("C06:std:argument-value-differs:{kind}"), format!("[n={n}] `{name}`: shown {}, the program holds {}", short(&p), short(&want)), replay.clone());
+                part.violate(format!("C06:std:argument-value-differs:{kind}"), format!("[n={n} {tc}] `{name}`: shown {}, the program holds {}", short(&p), short(&want)), replay.clone());
             }
         }
         if !expressions && args.len() != expected_args(n).len() {
-            part.violate("C06:std:argument-list-differs", format!("[n={n}] {} arguments shown, the function has {}", args.len(), expected_args(n).len()), replay.clone());
+            part.violate("C06:std:argument-list-differs", format!("[n={n} {tc}] {} arguments shown, the function has {}", args.len(), expected_args(n).len()), replay.clone());
         }
         // expressions (C07 meaning on collections)
         let arg_results = &run.obs[8]["res"]["results"];
@@ -467,15 +463,15 @@ pub fn part_std(tier: Tier, expressions: bool) -> Part {
                 _ => false,
             };
             if !ok {
-                part.violate("C07:std:expression-result-differs", format!("[n={n}] `{e}`: debugger gives {}, expected {}", got.as_ref().map(short).unwrap_or("nothing".into()), want.as_ref().map(short).unwrap_or("nothing".into())), replay.clone());
+                part.violate("C07:std:expression-result-differs", format!("[n={n} {tc}] `{e}`: debugger gives {}, expected {}", got.as_ref().map(short).unwrap_or("nothing".into()), want.as_ref().map(short).unwrap_or("nothing".into())), replay.clone());
             }
         }
         // the program still prints what it holds
         if !expressions && !run.obs.get(9).map(|o| o["res"]["kind"] == "exit").unwrap_or(false) {
-            part.violate("C06:std:program-did-not-finish", format!("[n={n}] {:?}", run.obs.get(9).map(|o| o["res"].clone())), replay.clone());
+            part.violate("C06:std:program-did-not-finish", format!("[n={n} {tc}] {:?}", run.obs.get(9).map(|o| o["res"].clone())), replay.clone());
         }
     }
-    part.bounds = json!({"size_parameters": configs, "locals": expected(3).len(), "expressions": expected_dqe(3).len(), "toolchain": "1.89"});
+    part.bounds = json!({"size_parameters": configs, "locals": expected(3).len(), "expressions": expected_dqe(3).len()});
     part
 }
 
@@ -489,9 +485,9 @@ fn short(v: &Value) -> String {
 pub fn part_vard(tier: Tier) -> Part {
     let mut part = Part::new("c16_vard");
     part.rule = "std-linked generated program that prints every one of its 30 values with {:?} after the stop: at the stop `vard <name>` (call_debug_fmt, the program's own Debug code run inside the stopped thread) is evaluated for each, and at a second stop inside a callee `argd <name>` for each of its 8 parameters; every text returned must equal the line the program prints itself afterwards, the registers are unchanged by the calls, and the program finishes with its normal output. An error answer (no callable instantiation found) is accepted, a different text is not".into();
-    let configs: &[(u64, u64)] = if tier == Tier::Quick { &[(3, 5)] } else { &[(1, 0), (3, 5), (12, 7), (40, 13)] };
-    for &(n, wrap) in configs {
-        let (exe, file, line) = match ensure_built(n, wrap) {
+    let configs: Vec<(u64, u64, &str)> = if tier == Tier::Quick { vec![(3, 5, "1.89")] } else { vec![(1, 0, "1.89"), (3, 5, "1.89"), (12, 7, "1.89"), (40, 13, "1.89"), (12, 7, "stable")] };
+    for &(n, wrap, tc) in &configs {
+        let (exe, file, line) = match ensure_built_tc(n, wrap, tc) {
             Ok(x) => x,
             Err(e) => {
                 part.violate("MACHINERY:std-build", e, json!(null));
@@ -513,7 +509,7 @@ pub fn part_vard(tier: Tier) -> Part {
         part.states += run.obs.len() as u64;
         part.traces_validated += 1;
         if run.hang_at.is_some() || run.crashed.is_some() || run.obs.len() < 7 {
-            part.violate("C16:vard:session-broke", format!("[n={n}] hang {:?} crash {:?}", run.hang_at, run.crashed), replay);
+            part.violate("C16:vard:session-broke", format!("[n={n} {tc}] hang {:?} crash {:?}", run.hang_at, run.crashed), replay);
             continue;
         }
         let stdout = run.result.as_ref().and_then(|r| r["stdout"].as_str()).unwrap_or("").to_string();
@@ -522,7 +518,7 @@ pub fn part_vard(tier: Tier) -> Part {
         let v = &run.obs[3]["res"];
         let va = &run.obs[5]["res"];
         if v["registers_unchanged"] != true || va["registers_unchanged"] != true {
-            part.violate("C16:vard:registers-changed", format!("[n={n}] the registers of the stopped thread differ after the vard / argd calls"), replay.clone());
+            part.violate("C16:vard:registers-changed", format!("[n={n} {tc}] the registers of the stopped thread differ after the vard / argd calls"), replay.clone());
         }
         let (mut ok, mut errs) = (0, 0);
         for (name, is_arg) in VARD_NAMES.iter().map(|x| (*x, false)).chain(ARGD_NAMES.iter().map(|x| (*x, true))) {
@@ -533,11 +529,11 @@ pub fn part_vard(tier: Tier) -> Part {
                 part.distinct_nontrivial += 1;
                 match own.get(name) {
                     Some(w) if w == text => {}
-                    Some(w) => part.violate("C16:vard:text-differs-from-the-program's-own-debug-output", format!("[n={n}] vard {name} = {:?}, the program prints {:?}", short_s(text), short_s(w)), replay.clone()),
-                    None => part.violate("MACHINERY:vard-no-own-line", format!("[n={n}] no DBG line for {name} in {:?}", short_s(&stdout)), replay.clone()),
+                    Some(w) => part.violate("C16:vard:text-differs-from-the-program's-own-debug-output", format!("[n={n} {tc}] vard {name} = {:?}, the program prints {:?}", short_s(text), short_s(w)), replay.clone()),
+                    None => part.violate("MACHINERY:vard-no-own-line", format!("[n={n} {tc}] no DBG line for {name} in {:?}", short_s(&stdout)), replay.clone()),
                 }
             } else if r["panic"] == true {
-                part.violate("C16:vard:panic", format!("[n={n}] vard {name} panicked"), replay.clone());
+                part.violate("C16:vard:panic", format!("[n={n} {tc}] vard {name} panicked"), replay.clone());
             } else {
                 errs += 1;
             }
@@ -545,7 +541,7 @@ pub fn part_vard(tier: Tier) -> Part {
         // the maps print in hash order, which is per process: compare the rest of the output only
         let strip = |s: &str| s.lines().filter(|l| !l.starts_with("DBG h")).collect::<Vec<_>>().join("\n");
         if !run.obs[6]["res"]["kind"].as_str().map(|k| k == "exit").unwrap_or(false) || strip(&stdout) != strip(&native) {
-            part.violate("C16:vard:program-output-changed", format!("[n={n}] after the vard calls the program ends with {} and prints {:?}; natively {:?}", run.obs[6]["res"], short_s(&strip(&stdout)), short_s(&strip(&native))), replay.clone());
+            part.violate("C16:vard:program-output-changed", format!("[n={n} {tc}] after the vard calls the program ends with {} and prints {:?}; natively {:?}", run.obs[6]["res"], short_s(&strip(&stdout)), short_s(&strip(&native))), replay.clone());
         }
         part.sample(json!({"n": n, "vard_answers": ok, "vard_errors": errs, "example": {"vv": v["results"]["vv"], "opt_s": v["results"]["opt_s"]}}));
     }
